@@ -218,6 +218,58 @@ func checkC11(replay string) {
 			r.Sample(map[string]any{"module": mi, "packages": len(bt.P.Pkgs), "configurations": len(cfgs)})
 		}
 	})
+	// unrelated packages whose diagnostics are reported in each other's files (//line directives, as generated code has them):
+	// the diagnostics of a package must be the same alone, next to the other package, in both listing orders, sequential and parallel
+	lineRuns := 0
+	for li, ln := range []int{2, 6, 9, 40} {
+		files := map[string]string{
+			"go.mod": "module example.com/linedir\n\ngo 1.21\n",
+			"a/a.go": fmt.Sprintf("package a\n\n// Conf is a value type\n// @immutable\ntype Conf struct {\n\tN int\n}\n\n// generated from a template next to package b\n//\n//line ../b/b.go:%d\nfunc Reset(c *Conf) {\n\tc.N = 0\n}\n", ln),
+			"b/b.go": "package b\n\n// Point is a value type\n// @immutable\ntype Point struct {\n\tX int\n\tY int\n}\n\nfunc Shift(p *Point) {\n\tp.X = 1\n}\n",
+		}
+		root := ggrun.Scratch()
+		ggrun.WriteTree(root, files)
+		fs := map[string]string{}
+		for k, v := range files {
+			fs["module/"+k] = v
+		}
+		perPkg := func(res *ggrun.Result, suffix string) string {
+			var ds []ggrun.Diag
+			for _, d := range res.Diags {
+				if strings.HasSuffix(d.PkgID, suffix) {
+					ds = append(ds, d)
+				}
+			}
+			return strings.Join(ggrun.Set(ds), "\n")
+		}
+		soloA := ggrun.Run(ggrun.Opts{Dir: root, Args: []string{"./a"}})
+		soloB := ggrun.Run(ggrun.Opts{Dir: root, Args: []string{"./b"}})
+		if bad, why := soloA.Crashed(false); bad {
+			r.Violate("crash/line-directive", why+"\n"+head(soloA.Stderr, 2000), fs)
+			os.RemoveAll(root)
+			continue
+		}
+		wantA, wantB := perPkg(soloA, "/a"), perPkg(soloB, "/b")
+		if wantA == "" || wantB == "" {
+			base.Harness("C11 line-directive module %d: a solo run reported nothing (a=%q b=%q)", li, wantA, wantB)
+		}
+		joint := [][]string{{"-debug=p", "./a", "./b"}, {"-debug=p", "./b", "./a"}, {"./a", "./b"}, {"./b", "./a"}, {"./..."}, {"./b", "./a"}, {"./a", "./b"}}
+		for ji, args := range joint {
+			res := ggrun.Run(ggrun.Opts{Dir: root, Args: args})
+			r.Eval(1)
+			lineRuns++
+			r.Distinct(fmt.Sprintf("linedir/%d/%d", li, ji))
+			if bad, why := res.Crashed(false); bad {
+				r.Violate("crash/line-directive", why+"\n"+head(res.Stderr, 2000), fs)
+				continue
+			}
+			if gotA, gotB := perPkg(res, "/a"), perPkg(res, "/b"); gotA != wantA || gotB != wantB {
+				r.Violate("nondeterminism/unrelated-package-alongside/line-directive", fmt.Sprintf("//line ../b/b.go:%d, args %v: the diagnostics of a package differ from those of its solo run.\nsolo a: %s\njoint a: %s\nsolo b: %s\njoint b: %s", ln, args, wantA, gotA, wantB, gotB), fs)
+			}
+		}
+		os.RemoveAll(root)
+	}
+	schedules["line-directive-solo-vs-joint"] = lineRuns
 	r.Obs("distinct_completion_orders_seen", len(orders))
 	r.Obs("actions_started_while_another_ran", overlapSeen)
 	r.Obs("race_blocks", raceBlocks)
